@@ -32,8 +32,10 @@ std::string gen_domain(Rng &r, int want_len)
 	std::string d;
 	// at least two labels
 	int remaining = want_len;
+	int maxl = r.chance(0.3) ? 63 : 20;          // labels up to the legal maximum of 63
 	while (remaining > 0) {
-		int l = (int)r.range(1, std::min(remaining, 20));
+		int l = (int)r.range(1, std::min(remaining, maxl));
+		if (maxl == 63 && remaining >= 66 && r.chance(0.5)) l = 63;
 		if (remaining - l == 1) l++;            // avoid a trailing single dot situation
 		if (remaining == want_len && l >= remaining) l = remaining - 2 > 0 ? remaining - 2 : 1;
 		for (int i = 0; i < l; i++) d += al[r.range(0, (i == 0) ? 25 : 35)];
